@@ -644,6 +644,9 @@ class ExcAnalysis:
                             return None
                         out.extend(r)
                     return out
+                it = self._loop_iter_of(e.id, owner)
+                if it is not None:
+                    return self._collection_elems(it, owner, depth + 1, seen)
                 owner = owner.parent
             t = self.R.type_of(e, self.R.scope(fn))
             if isinstance(t, tuple) and t[0] in ("func", "bound"):
@@ -680,6 +683,118 @@ class ExcAnalysis:
                     out.extend(r)
             return out if tg else None
         return None
+
+    def _loop_iter_of(self, name: str, fn: Func) -> ast.expr | None:
+        """Iterable of the `for name in <iter>` loop (or comprehension) binding `name` in fn."""
+        if isinstance(fn.node, ast.Lambda):
+            return None
+        for n in own_nodes(fn.node):
+            if isinstance(n, (ast.For, ast.comprehension)) and isinstance(n.target, ast.Name) and n.target.id == name:
+                return n.iter
+        return None
+
+    def _collection_elems(self, coll: ast.expr, fn: Func, depth: int, seen: set) -> list[Func] | None:
+        """Callables stored as elements of the list-valued expression `coll` (literal elements and .append(x) / += [x])."""
+        if depth > 10:
+            return None
+        if isinstance(coll, (ast.List, ast.Tuple)):
+            return self._table_values(coll, fn, depth, seen)
+        if isinstance(coll, ast.Name):
+            owner: Func | None = fn
+            while owner is not None:
+                if coll.id in {a.arg for a in owner.params}:
+                    key = (id(owner), coll.id, "elems")
+                    if key in seen:
+                        return []
+                    seen = seen | {key}
+                    out: list[Func] = []
+                    sites = self.callsites().get(id(owner), [])
+                    if not sites:
+                        return None
+                    for caller, call in sites:
+                        try:
+                            b = bind_args(call, owner)
+                        except Exception:
+                            return None
+                        arg = b.get(coll.id)
+                        if arg is None:
+                            continue
+                        r = self._collection_elems(arg, caller, depth + 1, seen)
+                        if r is None:
+                            return None
+                        out.extend(r)
+                    return out
+                defs = self.R.scope(owner).defs.get(coll.id)
+                if defs:
+                    out = []
+                    for d in defs:
+                        r = self._collection_elems(d, owner, depth + 1, seen)
+                        if r is None:
+                            return None
+                        out.extend(r)
+                    out.extend(self._appended(coll.id, None, owner, depth, seen) or [])
+                    return out
+                owner = owner.parent
+            return None
+        if isinstance(coll, ast.IfExp):
+            a = self._collection_elems(coll.body, fn, depth + 1, seen)
+            b = self._collection_elems(coll.orelse, fn, depth + 1, seen)
+            return None if a is None or b is None else a + b
+        if isinstance(coll, ast.Constant) and coll.value is None:
+            return []
+        if isinstance(coll, ast.Attribute):
+            key = ("field-elems", unparse(coll), fn.cls.name if fn.cls else "")
+            if key in seen:
+                return []
+            seen = seen | {key}
+            vals = self._field_values(coll, fn)
+            if vals is None:
+                return None
+            out = []
+            for owner_fn, v in vals:
+                r = self._collection_elems(v, owner_fn, depth + 1, seen)
+                if r is None:
+                    return None
+                out.extend(r)
+            app = self._appended(None, coll, fn, depth, seen)
+            if app is None:
+                return None
+            out.extend(app)
+            return out
+        if isinstance(coll, ast.Call) and isinstance(coll.func, ast.Name) and coll.func.id in ("list", "tuple", "sorted", "reversed") and coll.args:
+            return self._collection_elems(coll.args[0], fn, depth + 1, seen)
+        return None
+
+    def _appended(self, local: str | None, field_expr: ast.Attribute | None, fn: Func, depth: int, seen: set) -> list[Func] | None:
+        """Callables appended to a local list / to the field `recv.attr` anywhere in the receiver's class."""
+        out: list[Func] = []
+        scopes: list[Func] = []
+        mattr = None
+        if local is not None:
+            scopes = [fn]
+        else:
+            assert field_expr is not None
+            rt = self.R.type_of(field_expr.value, self.R.scope(fn))
+            cname = rt if isinstance(rt, str) else rt[1] if isinstance(rt, tuple) and rt[0] == "type" and isinstance(rt[1], str) else None
+            c = self.M.cls(cname, required=False) if cname else None
+            if c is None:
+                return None
+            mattr = mangle(self.M.mangling_class(field_expr), field_expr.attr)
+            for k in self.M.mro(c):
+                scopes.extend(f for f in k.all_defs if not isinstance(f.node, ast.Lambda))
+        for f in scopes:
+            for n in own_nodes(f.node):
+                if isinstance(n, ast.Call) and isinstance(n.func, ast.Attribute) and n.func.attr in ("append", "insert", "extend") and n.args:
+                    tgt = n.func.value
+                    hit = (local is not None and isinstance(tgt, ast.Name) and tgt.id == local) or (
+                        mattr is not None and isinstance(tgt, ast.Attribute) and isinstance(tgt.value, ast.Name) and tgt.value.id == f.self_name and f.cls is not None and mangle(f.cls.name, tgt.attr) == mattr)
+                    if hit:
+                        arg = n.args[-1]
+                        r = self.resolve_callable(arg, f, depth + 1, seen) if n.func.attr != "extend" else self._collection_elems(arg, f, depth + 1, seen)
+                        if r is None:
+                            return None
+                        out.extend(r)
+        return out
 
     def _param_bindings(self, owner: Func, pname: str, depth: int, seen: set) -> list[Func] | None:
         key = (id(owner), pname)
